@@ -64,7 +64,7 @@ def block_decode(hb: bytes, data: bytes, big: int) -> bool:
 def block_corruption(hb: bytes, data: bytes, pos: int, val: int) -> bool:
     """
     pre: len(hb) == 10
-    pre: len(data) <= 2
+    pre: len(data) <= 3
     pre: 0 <= val < 256
     pre: 0 <= pos < 13 + len(data)
     post: _
@@ -221,11 +221,11 @@ OBLIGATIONS = [
          outside="all 80 header bits symbolic at once (solver timeout)"),
     dict(name="block_corruption", fn="block_corruption", timeout=400,
          parts={"quick": ["len(data) == 1 and " + _HA, "len(data) == 1 and " + _HB],
-                "thorough": ["len(data) == %d and %s" % (n, h) for n in (0, 1, 2) for h in (_HA, _HB)]},
+                "thorough": ["len(data) == %d and %s" % (n, h) for n in (0, 1, 2, 3) for h in (_HA, _HB)]},
          functions=["Block.decode (checksum over re-encoded header + data)"],
          bounds="every single-byte corruption (every position incl. length, header, data, checksum bytes; every replacement value) of "
-                "every block with header bytes field-wise as in block_decode and 0..2 data bytes (quick: 1 data byte)",
-         outside="blocks with more data bytes (sum argument is length independent); multi-byte corruption"),
+                "every block with header bytes field-wise as in block_decode and 0..3 data bytes (quick: 1 data byte)",
+         outside="blocks with more than 3 data bytes (sum argument is length independent); multi-byte corruption"),
     dict(name="split_boundaries", fn="split_boundaries", timeout=300,
          functions=["Message._split_blocks", "SecsIMessage.data/complete", "Header.updated_with"],
          bounds="all headers; body lengths {0,242,486,730}+0..3 (every 244 boundary crossed with symbolic tail bytes)"),
